@@ -162,6 +162,19 @@ pub fn run_dedupe(op: DedupeOp, config: DedupeConfig, log: &dyn Log) -> Result<(
     let header = reader.read_header().map_err(input_error)?;
     let prev_command_config = get_command_config(&header)?;
 
+    // Isolated roots given on the command line may be relative or not canonical,
+    // while the paths in the report are absolute and canonical.
+    if !dedupe_config.isolated_roots.is_empty() {
+        let cwd = std::env::current_dir()
+            .map_err(|e| format!("Cannot determine current working directory: {e}"))?;
+        let cwd = Arc::new(fclones::Path::from(cwd));
+        dedupe_config.isolated_roots = dedupe_config
+            .isolated_roots
+            .iter()
+            .map(|root| cwd.resolve(root.clone()).canonicalize())
+            .collect();
+    }
+
     if let Command::Group(c) = &prev_command_config.command {
         // we cannot check size if a transformation was applied, because the transformation
         // may change the size of the data and the recorded data size
